@@ -1,7 +1,7 @@
 """C05 - condition events fire exactly when their predicate first holds, with exact value."""
 from harness import kprops, koracle
 ASSUMPTIONS = ['condition trees of depth <= 3 over timeouts, shared events and processes; one environment (the mixed-environment refusal is checked by a direct call)']
-SPEC = [(8, 'cond'), (1, 'outcome'), (1, 'plan:cond')]
+SPEC = [(8, 'cond'), (3, 'chain'), (1, 'outcome'), (1, 'plan:cond'), (1, 'plan:chain')]
 def run(ctx):
     res = kprops.run_kernel(ctx, 'C05', SPEC, 2000, 60000, oracles=[kprops.oracle_time_monotone, koracle.oracle_c05],
                             nontrivial=lambda c, lines: any(' got cv[' in l for l in lines),
